@@ -186,6 +186,7 @@ def floors(tier):
             "parameters": 30 if q else 600,
             "constraints": 30 if q else 600,
             "fixed": 30 if q else 600,
+            "cost_function": 30 if q else 600,
             "limits": 30 if q else 600,
             "cost": 30 if q else 600,
             "results.stored": 30 if q else 600,
@@ -660,6 +661,21 @@ def dea_matters(fit):
         return False
 
 
+def obs_cost_function(cf):
+    """which cost function the fit evaluates: class, evaluated method and every documented switch of it"""
+    d = {"class": type(cf).__name__, "function": getattr(cf.func, "__name__", None)}
+    for a in ("fast_math", "needs_errors", "is_chi2", "saturated", "pointwise", "add_determinant_cost", "arg_names"):
+        try:
+            v = getattr(cf, a)
+        except Exception as ex:
+            v = "exception " + type(ex).__name__
+        d[a] = list(v) if isinstance(v, (list, tuple)) else v
+    for a in ("_add_constraint_cost", "_add_determinant_cost_ga", "_ratio", "_fail_on_no_matrix", "_fail_on_no_errors"):
+        if hasattr(cf, a):
+            d[a] = getattr(cf, a)
+    return d
+
+
 def obs_fit(fit, where=""):
     g = [("class", type(fit).__name__, 0.0, 0.0, where)]
     custom = isinstance(fit, CustomFit)
@@ -672,6 +688,7 @@ def obs_fit(fit, where=""):
     g.append(("parameters", {"names": list(fit.parameter_names), "values": np.array(fit.parameter_values, dtype=float)}, 0.0, 0.0, where))
     g.append(("constraints", [obs_constraint(c) for c in fit.parameter_constraints], RT, 0.0, where))
     g.append(("fixed", dict(fit._fitter.fixed_parameters), 0.0, 0.0, where))
+    g.append(("cost_function", obs_cost_function(fit._cost_function), 0.0, 0.0, where))
     g.append(("limits", {k: list(v) for k, v in fit._fitter.limited_parameters.items()}, 0.0, 0.0, where))
     if not custom:
         if dea_matters(fit):
@@ -1654,6 +1671,17 @@ def refit(h, fit, re, case):
         pa, ca = pa2, float(fit.cost_function_value)
     except (Exception, OpTimeout):
         ctx.discard("refit-of-original-not-reproducible")
+        return
+    # a (nearly) degenerate minimum has no position to a fraction of the reported sigma (same policy as C06/C07/C14: cond(cor) <= 1e4)
+    try:
+        _fx = set(fit._fitter.fixed_parameters)
+        _free = [i for i, n in enumerate(fit.parameter_names) if n not in _fx]
+        _cor = np.array(fit.parameter_cor_mat, dtype=float)[np.ix_(_free, _free)]
+        _cond = float(np.linalg.cond(_cor)) if len(_free) > 1 else 1.0
+        if not np.isfinite(_cond) or _cond > 1e4 or np.any(sig[_free] <= 0):
+            raise ValueError("degenerate")
+    except Exception:
+        ctx.discard("refit-minimum-degenerate")
         return
     if h.call("refit.do_fit", lambda: (re.do_fit(), re.do_fit())) is None:
         return
